@@ -16,7 +16,7 @@ namespace Kodama
 theorem C04_source_active_Active_contains : Gen.bodyHash "active.rs::Active::contains" = some 654886494140433379 := by decide
 theorem C04_source_active_Active_remove : Gen.bodyHash "active.rs::Active::remove" = some 386005549530244905 := by decide
 theorem C04_source_active_Active_iter : Gen.bodyHash "active.rs::Active::iter" = some 515319513971985362 := by decide
-theorem C04_source_active_Active_range : Gen.bodyHash "active.rs::Active::range" = some 991926060293893991 := by decide
+theorem C04_source_active_Active_range : Gen.bodyHash "active.rs::Active::range" = some 148316777747368857 := by decide
 theorem C04_source_active_ActiveIter_next : Gen.bodyHash "active.rs::ActiveIter::next" = some 1007075780930307687 := by decide
 theorem C04_source_active_ActiveRange_next : Gen.bodyHash "active.rs::ActiveRange::next" = some 547352909114454429 := by decide
 theorem C04_source_spanning_mst_with : Gen.bodyHash "spanning.rs::mst_with" = some 666729020279403072 := by decide
